@@ -400,32 +400,55 @@ def run_property(prop, tier="quick", seed=0, only=None, extra=None):
             tasks.append((prop, c.name, tier, seed, timeout_ms, (k, D)))
     nproc = 16 if any(t[5] and t[5][0] == "split" for t in tasks) else min(16, max(1, len(tasks)))
     results = []
+    # the bounded native tier (a subprocess of the repository interpreter) runs alongside the deductive contracts
+    import threading
+    mod0 = sys.modules[f"contracts.{prop}"]
+    bounded_box = {}
+
+    def _run_bounded():
+        try:
+            bounded_box["result"] = list(mod0.bounded_checks(tier, seed))
+        except Exception:  # noqa: BLE001
+            bounded_box["error"] = traceback.format_exc()
+    bounded_thread = None
+    if hasattr(mod0, "bounded_checks") and only is None:
+        bounded_thread = threading.Thread(target=_run_bounded, daemon=True)
+        bounded_thread.start()
     if tasks:
         ctx = mp.get_context("fork")
         with ctx.Pool(nproc) as pool:
             asyncs = [(t, pool.apply_async(_run_contract, (t,))) for t in tasks]
             # split tasks first, so that their sub-tasks are queued early
             asyncs.sort(key=lambda ta: 0 if (ta[0][5] and ta[0][5][0] == "split") else 1)
-            i_async = 0
             sub_seq = [0]
-            while i_async < len(asyncs):
-                t, a = asyncs[i_async]
-                i_async += 1
-                c = next(c for c in contracts if c.name == t[1])
-                lim = c.timeout_s or (600 if tier == "quick" else 3600)
-                try:
-                    r_ = a.get(timeout=lim)
-                    results.append(r_)
-                    pend = r_.pop("pending", None)
-                    if pend:
-                        nsub = min(c.split, len(pend))
-                        for k in range(nsub):
-                            sub_seq[0] += 1
-                            t2 = (t[0], t[1], t[2], t[3], t[4], ("sub", sub_seq[0], pend[k::nsub]))
-                            asyncs.append((t2, pool.apply_async(_run_contract, (t2,))))
-                except mp.TimeoutError:
-                    results.append({"contract": t[1], "prop": prop, "obligations": [], "unsupported": [("timeout", f"contract exceeded {lim}s")],
-                                    "paths": 0, "error": None, "covers": {}, "functions": {}, "solver_ms": {}, "stats": {}, "wall_s": lim})
+            pending_asyncs = [(t, a, time.time()) for t, a in asyncs]
+            # results are collected as they become ready (sub-tasks of a split are queued the moment the split returns)
+            while pending_asyncs:
+                progressed = False
+                for entry in list(pending_asyncs):
+                    t, a, t_sub = entry
+                    c = next(c for c in contracts if c.name == t[1])
+                    lim = c.timeout_s or (600 if tier == "quick" else 3600)
+                    if a.ready():
+                        pending_asyncs.remove(entry)
+                        progressed = True
+                        r_ = a.get()
+                        results.append(r_)
+                        pend = r_.pop("pending", None)
+                        if pend:
+                            nsub = min(c.split, len(pend))
+                            for k in range(nsub):
+                                sub_seq[0] += 1
+                                t2 = (t[0], t[1], t[2], t[3], t[4], ("sub", sub_seq[0], pend[k::nsub]))
+                                pending_asyncs.append((t2, pool.apply_async(_run_contract, (t2,)), time.time()))
+                    elif time.time() - t_sub > lim + 600:
+                        # queued + running far beyond the contract's limit: report as undecided (the pool is torn down at the end)
+                        pending_asyncs.remove(entry)
+                        progressed = True
+                        results.append({"contract": t[1], "prop": prop, "obligations": [], "unsupported": [("timeout", f"contract exceeded {lim}s")],
+                                        "paths": 0, "error": None, "covers": {}, "functions": {}, "solver_ms": {}, "stats": {}, "wall_s": lim})
+                if not progressed:
+                    time.sleep(0.05)
             pool.terminate()
     outdir = OUTROOT / "out" / prop
     outdir.mkdir(parents=True, exist_ok=True)
@@ -485,7 +508,14 @@ def run_property(prop, tier="quick", seed=0, only=None, extra=None):
     bviol = []
     mod = sys.modules[f"contracts.{prop}"]
     if hasattr(mod, "bounded_checks"):
-        for bc in mod.bounded_checks(tier, seed):
+        if bounded_thread is not None:
+            bounded_thread.join()
+            if "error" in bounded_box:
+                raise RuntimeError(bounded_box["error"])
+            bcs = bounded_box.get("result", [])
+        else:
+            bcs = mod.bounded_checks(tier, seed)
+        for bc in bcs:
             bounded.append({k: v for k, v in bc.items() if k != "violations"})
             for v in bc.get("violations", []):
                 bviol.append((bc, v))
@@ -513,6 +543,17 @@ def run_property(prop, tier="quick", seed=0, only=None, extra=None):
     reported = set()
     per_ob = {}
     replay_cache = {}
+    if getattr(mod, "REPLAY_KEYED_BY_EXPECTS", False) and violations:
+        from concurrent.futures import ThreadPoolExecutor
+        jobs = {}
+        for c, r, ob, full in violations:
+            if c.replay:
+                ck = (c.replay, full, json.dumps(ob.get("expects"), sort_keys=True, default=str))
+                jobs.setdefault(ck, (c, ob, full))
+        with ThreadPoolExecutor(8) as tp:
+            futs = {ck: tp.submit(run_replay, prop, c.replay, ob.get("witness"), full, ob.get("expects")) for ck, (c, ob, full) in jobs.items()}
+            for ck, f in futs.items():
+                replay_cache[ck] = f.result()
     for c, r, ob, full in violations:
         per_ob[full] = per_ob.get(full, 0) + 1
         if per_ob[full] > 8 and full in reported:
@@ -529,7 +570,10 @@ def run_property(prop, tier="quick", seed=0, only=None, extra=None):
                 rep = run_replay(prop, c.replay, ob.get("witness"), full, ob.get("expects"))
         kf = None
         for k in known:
-            if k.get("obligation") and not full.endswith(k["obligation"]) and k["obligation"] not in full:
+            # a deductive obligation can only fail on a finding that names it: findings of the bounded tiers never excuse a refuted obligation
+            if not k.get("obligation"):
+                continue
+            if not full.endswith(k["obligation"]) and k["obligation"] not in full:
                 continue
             if rep and rep.get("signature") and match_known([k], rep["signature"]):
                 kf = k
@@ -570,7 +614,11 @@ def run_property(prop, tier="quick", seed=0, only=None, extra=None):
         exit_code = 1
     for bc, v in bviol:
         sig = v.get("signature")
-        kf = match_known(known, sig, v.get("root_cause"), allow_class=bool(bc.get("class_match")))
+        # findings recorded against another check (or against a deductive obligation only) do not apply to this bounded tier
+        applicable = [k for k in known if (k.get("check") is None and not k.get("obligation")) or
+                      (k.get("check") and (f"bounded.{bc['check']}" == k["check"] or f"bounded.{bc['check']}".startswith(k["check"] + ".")))
+                      or (k.get("obligation") and k.get("signatures"))]
+        kf = match_known(applicable, sig, v.get("root_cause"), allow_class=bool(bc.get("class_match")))
         if kf is not None:
             known_hits.append((kf, bc["check"]))
             continue
